@@ -1,2 +1,105 @@
-(* Property C03 — statements follow. *)
-From Nitro Require Import Opt.Run.
+(* Property C03 — value sources are ranked: command line, then environment, then default.  Only statements. *)
+From Coq Require Import List Arith Bool ZArith.
+From Coq Require Import Init.Byte.
+From Nitro Require Import Base.Bytes Base.Res Opt.Token Opt.Decl Opt.ParserModel Opt.ParserCore Opt.ParserSpec Opt.Vocab Opt.Run
+  Opt.RefineDefs Opt.Corollaries Opt.CoreEq Opt.History Opt.Positional Opt.Lexical Opt.Refine5 Opt.Sample.
+Import ListNotations.
+
+(* The result of a successful parse reports, for every declared option / multi-option / toggle, the value of its SOURCE,
+   where the source is defined by the ranking below (C03_opt_rank, C03_multi_rank, C03_toggle_rank).  Together with
+   C01_parse_accounts_for_every_token (the result of parse IS the assignment of the items on the command line). *)
+Theorem C03_result_is_first_available_source : forall d e items tail r,
+  assign d e items tail = Ok r ->
+  (forall i o, nth_error (d_opts d) i = Some o ->
+     nth_error (r_opts r) i = Some (o_name o, src_val (opt_source e o (opt_values i items)))
+     /\ src_bad (opt_source e o (opt_values i items)) = false) /\
+  (forall i o, nth_error (d_multis d) i = Some o ->
+     nth_error (r_multis r) i = Some (m_name o, match src_val (multi_source e o (multi_values i items)) with Some l => l | None => [] end)
+     /\ src_bad (multi_source e o (multi_values i items)) = false) /\
+  (forall j t, nth_error (d_toggles d) j = Some t ->
+     nth_error (r_toggles r) j = Some (t_name t, match src_val (toggle_source truthy falsy e t (occurrences j items) (negations j items)) with Some z => z | None => 0%Z end)
+     /\ src_bad (toggle_source truthy falsy e t (occurrences j items) (negations j items)) = false) /\
+  r_pos r = inline_pos items ++ match tail with Some ps => ps | None => [] end.
+Proof. exact (assignment_reports truthy falsy). Qed.
+Print Assumptions C03_result_is_first_available_source.
+
+(* the ranking for a single-valued option: first value on the command line; else the bound environment variable when set
+   to a non-empty string, VERBATIM; else the default; else absent (optional) or missing (required) *)
+Theorem C03_opt_rank : forall e o given,
+  opt_source e o given =
+  match given with
+  | v :: _ => FromCmd v
+  | [] => if nonempty (env_get e (o_env o)) then FromEnv (env_get e (o_env o))
+          else match o_def o with Some dv => FromDefault dv | None => if o_opt o then Absent else Missing end
+  end.
+Proof. exact opt_rank. Qed.
+Print Assumptions C03_opt_rank.
+Theorem C03_multi_rank : forall e o given,
+  multi_source e o given =
+  match given with
+  | _ :: _ => FromCmd given
+  | [] => if nonempty (env_get e (m_env o)) then FromEnv (getlines ";"%byte (env_get e (m_env o)) [] false)
+          else match m_def o with Some dv => FromDefault dv | None => if m_opt o then Absent else Missing end
+  end.
+Proof. reflexivity. Qed.
+Print Assumptions C03_multi_rank.
+Theorem C03_toggle_rank : forall e t occ neg,
+  toggle_source truthy falsy e t occ neg =
+  if 0 <? occ then FromCmd (Z.of_nat occ)
+  else if 0 <? neg then FromCmd 0%Z
+  else if nonempty (env_get e (t_env t))
+       then match env_word (env_get e (t_env t)) with Some true => FromEnv 1%Z | Some false => FromEnv 0%Z | None => BadEnv end
+       else FromDefault (t_def t).
+Proof. exact (toggle_rank truthy falsy). Qed.
+Print Assumptions C03_toggle_rank.
+
+(* parsing fails for a required option without any source (and only then, as far as sources go) *)
+Theorem C03_required_missing_fails : forall d e items tail,
+  assign d e items tail = Err UserError <->
+  (exists i o, nth_error (d_opts d) i = Some o /\ src_bad (opt_source e o (opt_values i items)) = true) \/
+  (exists i o, nth_error (d_multis d) i = Some o /\ src_bad (multi_source e o (multi_values i items)) = true) \/
+  (exists j t, nth_error (d_toggles d) j = Some t /\ src_bad (toggle_source truthy falsy e t (occurrences j items) (negations j items)) = true).
+Proof. exact (assignment_fails_iff truthy falsy). Qed.
+Print Assumptions C03_required_missing_fails.
+Theorem C03_opt_missing_iff : forall e o given,
+  src_bad (opt_source e o given) = true <-> given = [] /\ nonempty (env_get e (o_env o)) = false /\ o_def o = None /\ o_opt o = false.
+Proof. exact opt_missing_iff. Qed.
+Print Assumptions C03_opt_missing_iff.
+Theorem C03_multi_missing_iff : forall e o given,
+  src_bad (multi_source e o given) = true <-> given = [] /\ nonempty (env_get e (m_env o)) = false /\ m_def o = None /\ m_opt o = false.
+Proof. exact multi_missing_iff. Qed.
+Print Assumptions C03_multi_missing_iff.
+
+(* provided exactly when the value came from the command line or the environment *)
+Theorem C03_provided_iff_cmdline_or_env : forall d e items tail r,
+  assign d e items tail = Ok r ->
+  r_provided r =
+     map fst (filter (fun p => src_provided (snd p)) (mapi (fun i o => (o_name o, opt_source e o (opt_values i items))) 0 (d_opts d)))
+  ++ map fst (filter (fun p => src_provided (snd p)) (mapi (fun i o => (m_name o, multi_source e o (multi_values i items))) 0 (d_multis d)))
+  ++ map fst (filter (fun p => src_provided (snd p)) (mapi (fun i t => (t_name t, toggle_source truthy falsy e t (occurrences i items) (negations i items))) 0 (d_toggles d))).
+Proof. exact (assignment_provided truthy falsy). Qed.
+Print Assumptions C03_provided_iff_cmdline_or_env.
+
+(* the model's parse computes exactly this (the transfer from the spec to the parser) *)
+Theorem C03_parse_is_spec : forall d e st args,
+  wf_decl d = true -> no_clash d = true -> aligned d st -> snd (parse d e st args) = spec d e args.
+Proof. exact (parse_refines truthy falsy). Qed.
+Print Assumptions C03_parse_is_spec.
+
+Module Examples.
+Import Strings.String.
+Local Open Scope string_scope.
+(* environment value delivered verbatim although it looks like an option: --a=b (pre-repair: re-read as a token, giving b) *)
+Example C03_ex_env_verbatim :
+  opt_source (fun _ => Some (B "--a=b")) {| o_name := B "out"; o_short := None; o_env := Some (B "N_X"); o_def := Some (B "d"); o_opt := false |} []
+  = FromEnv (B "--a=b").
+Proof. reflexivity. Qed.
+Example C03_ex_env_empty_falls_to_default :
+  opt_source (fun _ => Some []) {| o_name := B "out"; o_short := None; o_env := Some (B "N_X"); o_def := Some (B "d"); o_opt := false |} []
+  = FromDefault (B "d").
+Proof. reflexivity. Qed.
+Example C03_ex_multi_env_split :
+  multi_source (fun _ => Some (B "a;;-5;")) {| m_name := B "inc"; m_short := None; m_env := Some (B "N_X"); m_def := None; m_opt := false |} []
+  = FromEnv [B "a"; []; B "-5"].
+Proof. reflexivity. Qed.
+End Examples.
